@@ -64,6 +64,53 @@ structure CModes where
   modes : List CMode
   deriving DecidableEq, Repr
 
+/-- modes.go `Perms` (moved here from Model/Modes.lean; Go fields `Owner`, `Admin`, `Op`, `HalfOp`, `Voice`). -/
+structure Perms where
+  owner : Bool := false
+  admin : Bool := false
+  op : Bool := false
+  halfop : Bool := false
+  voice : Bool := false
+  deriving DecidableEq, Repr, Inhabited
+
+/-- state.go `User` (moved here from Model/State.lean).  The generated code knows `Nick`, `Ident`, `Host` and
+    `ChannelList` (↦ `chans`); `perms` models the `*UserPerms` object, which translated code never touches. -/
+structure User where
+  nick : Bytes
+  ident : Bytes := []
+  host : Bytes := []
+  chans : List Bytes := []          -- ChannelList: folded names, sorted
+  perms : AMap Perms := []          -- Perms.channels: keyed by folded channel name
+  name : Bytes := []                -- Extras.Name
+  account : Bytes := []
+  away : Bytes := []
+  deriving DecidableEq, Repr
+
+/-- state.go `Channel` (moved here from Model/State.lean; Go `UserList` ↦ `users`; `Joined` is outside the model). -/
+structure Channel where
+  name : Bytes
+  topic : Bytes := []
+  users : List Bytes := []          -- UserList: folded nicks, sorted
+  modes : CModes
+  deriving DecidableEq, Repr
+
+/-- cap_sasl.go `SASLPlain` / `SASLExternal`. -/
+structure SASLPlain where
+  user : Bytes
+  pass : Bytes
+  deriving DecidableEq, Repr
+
+structure SASLExternal where
+  identity : Bytes
+  deriving DecidableEq, Repr
+
+/-- The limiter fields of conn.go `ircConn`.  `time.Time` and `time.Duration` are both integer nanoseconds. -/
+structure IrcConn where
+  lastWrite : Int := 0
+  lastDue : Int := 0
+  writeDelay : Int := 0
+  deriving DecidableEq, Repr
+
 /-- Go run-time failures.  `nilMap`: assignment to an entry of a nil map.  `diverge`: a fuel-bounded loop ran out of fuel.  `unsupported`: emitted by
     the translator (fail-closed) for a target function that is missing or outside the Go subset, and by
     run-time models for arguments outside their modelled domain. -/
@@ -133,6 +180,36 @@ def stripColorFuel : Nat → Bytes → Bytes
 
 def stripColor (s : Bytes) : Bytes := stripColorFuel (s.length + 1) s
 
+/-- What a handler / command helper does to the outside world (moved here from Model/Cap.lean): the translator turns a
+    call of a designated sink (`c.write`, `c.Send`, `c.receive`) into an append to an output list of these. -/
+inductive Out where
+  | write (e : Event)      -- `c.write`: straight into the send queue
+  | send (e : Event)       -- `c.Send`: format / split / flood control, then the send queue
+  | inject (e : Event)     -- `c.receive`: back into the receive queue (local ERROR events)
+  | close                  -- `c.Close()`
+  deriving Repr
+
+/-! ### `base64.StdEncoding.EncodeToString` (moved here from Model/Sasl.lean) — TRUSTED stdlib table entry. -/
+
+def b64Char (n : Nat) : Byte :=
+  if n < 26 then UInt8.ofNat (0x41 + n)
+  else if n < 52 then UInt8.ofNat (0x61 + (n - 26))
+  else if n < 62 then UInt8.ofNat (0x30 + (n - 52))
+  else if n = 62 then 0x2B else 0x2F
+
+/-- `base64.StdEncoding.EncodeToString` (RFC 4648 with padding). -/
+def b64Encode : Bytes → Bytes
+  | a :: b :: c :: rest =>
+    let n := a.toNat * 65536 + b.toNat * 256 + c.toNat
+    b64Char (n / 262144) :: b64Char (n / 4096 % 64) :: b64Char (n / 64 % 64) :: b64Char (n % 64) :: b64Encode rest
+  | [a, b] =>
+    let n := a.toNat * 65536 + b.toNat * 256
+    [b64Char (n / 262144), b64Char (n / 4096 % 64), b64Char (n / 64 % 64), 0x3D]
+  | [a] =>
+    let n := a.toNat * 65536
+    [b64Char (n / 262144), b64Char (n / 4096 % 64), 0x3D, 0x3D]
+  | [] => []
+
 end Girc.Model
 
 namespace Girc.Go
@@ -193,6 +270,54 @@ def sliceL (s : List Bytes) (lo hi : Int) : Except Fault (List Bytes) :=
 def setI (s : Bytes) (i : Int) (v : Byte) : Except Fault Bytes :=
   if 0 ≤ i ∧ i < s.length then .ok (s.set i.toNat v) else .error .indexOutOfRange
 
+/-! ### Slices of any element type (`[]CMode`, …): checked index, slice, element assignment, `make`, `copy` -/
+
+/-- Go `s[i]` on a slice. -/
+def atA {α : Type} (s : List α) (i : Int) : Except Fault α :=
+  if 0 ≤ i ∧ i < s.length then
+    match s[i.toNat]? with
+    | some b => .ok b
+    | none => .error .indexOutOfRange
+  else .error .indexOutOfRange
+
+/-- Go `s[lo:hi]` on a slice (capacity not modelled). -/
+def sliceA {α : Type} (s : List α) (lo hi : Int) : Except Fault (List α) :=
+  if 0 ≤ lo ∧ lo ≤ hi ∧ hi ≤ s.length then .ok ((s.drop lo.toNat).take (hi - lo).toNat)
+  else .error .sliceBounds
+
+/-- Go `s[i] = v` on a slice. -/
+def setA {α : Type} (s : List α) (i : Int) (v : α) : Except Fault (List α) :=
+  if 0 ≤ i ∧ i < s.length then .ok (s.set i.toNat v) else .error .indexOutOfRange
+
+/-- Go `make([]T, n)`: `n` zero values; a negative length panics. -/
+def makeA {α : Type} (zero : α) (n : Int) : Except Fault (List α) :=
+  if 0 ≤ n then .ok (List.replicate n.toNat zero) else .error .sliceBounds
+
+/-- Go `copy(dst, src)` (the statement form; the count is discarded): the first `min(len dst, len src)` elements of
+    `dst` are overwritten.  `dst` and `src` do not overlap (values). -/
+def copyA {α : Type} (dst src : List α) : List α :=
+  src.take dst.length ++ dst.drop (src.take dst.length).length
+
+/-- `strings.SplitN(s, sep, n)` for a ONE-byte separator and `n > 0`: at most `n` pieces, the last one is the
+    unsplit remainder. -/
+def splitNOn (b : Byte) : Nat → Bytes → List Bytes
+  | 0, _ => []
+  | 1, s => [s]
+  | n + 2, s =>
+    match indexOf b s with
+    | none => [s]
+    | some i => s.take i :: splitNOn b (n + 1) (s.drop (i + 1))
+
+def splitN (s sep : Bytes) (n : Int) : Except Fault (List Bytes) :=
+  match sep with
+  | [b] => if 0 < n then .ok (splitNOn b n.toNat s)
+           else .error (.unsupported "strings.SplitN: n ≤ 0")
+  | _ => .error (.unsupported "strings.SplitN: separator is not one byte")
+
+/-- Go integer division `a / b`: truncates towards zero; division by zero panics. -/
+def divI (a b : Int) : Except Fault Int :=
+  if b = 0 then .error (.unsupported "integer division by zero") else .ok (Int.tdiv a b)
+
 /-- Go `string(b)` for a `byte` b: the UTF-8 encoding of the code point U+00bb (one byte below 0x80,
     two bytes from 0x80 on). -/
 def strOfByte (b : Byte) : Bytes :=
@@ -243,6 +368,9 @@ def replacer (pairs : List (Bytes × Bytes)) (s : Bytes) : Bytes := replacerFuel
 inductive GoErr where
   | mk
   deriving DecidableEq, Repr
+
+/-- `errors.New(msg)`: a non-nil error; the (already evaluated) message text is abstracted away. -/
+def errOf (_msg : Bytes) : Option GoErr := some GoErr.mk
 
 /-- `sort.Strings(x)`: `x` sorted increasingly by Go's string `<` (byte-wise lexicographic, `bytesLt`).
     TRUSTED table entry: the library sorts in place into the unique ascending arrangement; the model is
@@ -311,6 +439,18 @@ def mapSet (t : Option Tags) (k v : Bytes) : Except Fault (Option Tags) :=
   | some m => .ok (some (AMap.set m k v))
 
 @[simp] theorem mapSet_some (m : Tags) (k v : Bytes) : mapSet (some m) k v = .ok (some (AMap.set m k v)) := rfl
+
+/-- Go `m[k]` on a `map[string]map[string]string` (nil outer map / missing key read as the nil inner map). -/
+def mapGet2 (t : Option (AMap (Option Tags))) (k : Bytes) : Option Tags :=
+  match t with
+  | none => none
+  | some m => (AMap.get? m k).getD none
+
+/-- Go `m[k] = v` on a `map[string]map[string]string`: panics on a nil map. -/
+def mapSet2 (t : Option (AMap (Option Tags))) (k : Bytes) (v : Option Tags) : Except Fault (Option (AMap (Option Tags))) :=
+  match t with
+  | none => .error .nilMap
+  | some m => .ok (some (AMap.set m k v))
 
 /-- Fuel for a loop `for …; i < n; …`: the distance plus one. -/
 def fuelTo (i n : Int) : Nat := (n - i).toNat + 1
